@@ -155,10 +155,14 @@ def o1_cosim(ctx, joiners, relay, relay_addr=0o1):
         queue_frames(n1)
         ok = call(med, r0, n0.send, k1, 9, body)
         ctx.check(ok == True, "send(node_id, ...) succeeds")  # noqa: E712
+        # ... and so does a second one of the same type, sent before the addressee's application has read the first
+        body2 = ctx.bytes("body2", 3)
+        ok2 = call(med, r0, n0.send, k1, 9, body2)
+        ctx.check(ok2 == True, "a second send(node_id, ...) succeeds")  # noqa: E712
         q = queue_frames(n1)
-        ctx.check(len(q) == 1, "the message arrives at the node with that ID")
-        if len(q) == 1:
-            ctx.check(s_and(q[0].header.from_node == a0, q[0].header.message_type == 9, bytes_eq(q[0].message, body)), "intact")
+        ctx.check(len(q) == 2, "each message sent to a node ID arrives at the node with that ID")
+        for got, want in zip(q, (body, body2)):
+            ctx.check(s_and(got.header.from_node == a0, got.header.message_type == 9, bytes_eq(got.message, want)), "intact, in order")
     # connection checks, release, re-join
     ctx.check(call(med, r0, n0.check_connection) == True, "check_connection() is True for a connected node")  # noqa: E712
     ctx.check(call(med, r0, n0.release_address) == True, "release_address() succeeds")  # noqa: E712
